@@ -277,6 +277,10 @@ def c11_driver(ctx):
         names.append(rng.pick(["", "C:"]) + (root + "/abs_escape_%d.txt" % i).replace("/", "\\"))
         names.append(root + "/abs_fwd_%d.txt" % i)
     names += ["..\\escaped.txt", "..\\..\\..\\up3.txt", "a\\..\\..\\b.txt", "World\\Maps\\../../../mixed.txt", "ok\\plain.txt", "UPPER\\File.TXT"]
+    # entries sharing one base name, an ordinary one first and traversal ones after it (a flattened extraction meets the
+    # same leaf again and must not fall back to the entry's own path), and directories followed by more ".." than directories
+    names += ["docs\\readme.txt", "..\\x\\readme.txt", "..\\..\\readme.txt", "a\\..\\..\\..\\readme.txt", "sub\\readme.txt", "\\readme.txt",
+              "a\\b\\..\\..\\..\\deep.txt", "data\\..\\..\\sibling\\deep.txt"]
     # edge names (weird last components: the extractor may abort on them; only the snapshot oracle applies)
     edge = ["a\\", "a\\.", "a\\..", "..", ".", "\\", "C:", "x\\..\\..", "..\\..\\", "dir\\sub\\..\\..\\..\\e.txt", "\\\\server\\share\\f.txt"]
     namesfile = os.path.join(root, "names.hex")
@@ -949,7 +953,7 @@ def c02_driver(ctx):
         specs, exp = [], []
         nf = 1 + rng.below(5)
         for k in range(nf):
-            name = ["flat%d.txt" % k, "Dir\\Sub\\file%d.dat" % k, "a\\b%d.bin" % k, "x%d" % k][k % 4]
+            name = ["flat%d.txt" % k, "Dir\\Sub\\file%d.dat" % k, "a\\b%d.bin" % k, "x%d" % k, "zone\\Azeroth_%d.wdt" % k][k % 5 if i % 2 else k % 4]
             ln = rng.pick([0, 1, 2, 3, 5, ssz - 1, ssz, ssz + 1, 2 * ssz, 3 * ssz + 7, rng.below(3 * ssz) + 1])
             cls = rng.below(3)
             data = bytes((rng.next() & 0xFF) for _ in range(ln)) if cls == 0 else bytes([65 + (j // 9 + k) % 5 for j in range(ln)]) if cls == 1 else b"\0" * ln
@@ -960,10 +964,17 @@ def c02_driver(ctx):
             specs.append("%s|%d|%s|%s" % (name.encode().hex(), enc, _rle_enc(data), ",".join(_rle_enc(u) for u in units) if units else "-"))
             exp.append("%s=%s" % (name.encode().hex(), _rle_enc(data)))
             bump("c02.lib_reads_reference.%s.%s" % (["plain", "enc", "fixkey"][enc], "path" if "\\" in name else "flat"))
+        # two archives in three are what an independent writer leaves after "add T.., add the files, remove T..": files may
+        # sit behind deleted markers in their probe chains, which a conformant lookup walks over
+        tombs = ["removed%d_%d.tmp" % (i, t) for t in range(rng.below(4) + 1)] if i % 3 else []
         hs = 4
-        while hs < 2 * nf:
+        while hs < 2 * (nf + len(tombs)):
             hs *= 2
-        out = _model(wvmodel, ["mpqwrite published %d %d %d %s" % (ver, shift, hs, " ".join(specs))])[0]
+        if tombs:
+            bump("c02.lib_reads_reference.with_deleted_markers")
+            out = _model(wvmodel, ["mpqwritetomb published %d %d %d %s %s" % (ver, shift, hs, ",".join(t.encode().hex() for t in tombs), " ".join(specs))])[0]
+        else:
+            out = _model(wvmodel, ["mpqwrite published %d %d %d %s" % (ver, shift, hs, " ".join(specs))])[0]
         af, ef = os.path.join(d, "r.txt"), os.path.join(d, "e.txt")
         open(af, "w").write(out)
         open(ef, "w").write(" ".join(exp))
